@@ -65,6 +65,10 @@ static handler_t my_response_loop(request_st *r) {
         if (rcx != HANDLER_GO_ON) return rcx;
     }
     const char *t = r->target.ptr ? r->target.ptr : "";
+    if (r->http_status >= 400) {   /* the request was rejected while parsing its header block (what http_response_handler() does first) */
+        r->resp_body_finished = 1; r->handler_module = NULL;
+        return HANDLER_FINISHED;
+    }
     r->http_status = 200;
     if (t[0] == '/' && t[1] == 'b') {
         size_t n = strtoul(t + 2, NULL, 10);
@@ -81,6 +85,55 @@ static handler_t my_response_loop(request_st *r) {
         char num[32]; int k = snprintf(num, sizeof(num), "%lld", (long long)chunkqueue_length(&r->reqbody_queue));
         chunkqueue_append_mem(&r->write_queue, num, (size_t)k);
         chunkqueue_reset(&r->reqbody_queue);
+        r->resp_body_finished = 1;
+    } else if (t[0] == '/' && t[1] == 'h') {
+        /* dump what the handler sees of the request: one line per item, hex encoded */
+        buffer *b = buffer_init();
+        buffer_append_string_len(b, CONST_STR_LEN("m="));
+        buffer_append_int(b, (int)r->http_method);
+        buffer_append_string_len(b, CONST_STR_LEN(" t=")); buffer_append_string_encoded_hex_lc(b, BUF_PTR_LEN(&r->target_orig));
+        buffer_append_string_len(b, CONST_STR_LEN(" a=")); if (r->http_host) buffer_append_string_encoded_hex_lc(b, BUF_PTR_LEN(r->http_host));
+        buffer_append_string_len(b, CONST_STR_LEN(" s=")); buffer_append_string_encoded_hex_lc(b, BUF_PTR_LEN(&r->uri.scheme));
+        buffer_append_char(b, '\n');
+        for (uint32_t i = 0; i < r->rqst_headers.used; ++i) {
+            data_string *ds = (data_string *)r->rqst_headers.data[i];
+            if (buffer_is_blank(&ds->value)) continue; /* cleared slots */
+            buffer_append_string_len(b, CONST_STR_LEN("k=")); buffer_append_string_encoded_hex_lc(b, BUF_PTR_LEN(&ds->key));
+            buffer_append_string_len(b, CONST_STR_LEN(" v=")); buffer_append_string_encoded_hex_lc(b, BUF_PTR_LEN(&ds->value));
+            buffer_append_string_len(b, CONST_STR_LEN(" id=")); buffer_append_int(b, ds->ext);
+            buffer_append_string_len(b, CONST_STR_LEN(" want=")); buffer_append_int(b, (int)http_header_hkey_get(BUF_PTR_LEN(&ds->key)));
+            buffer_append_char(b, '\n');
+        }
+        chunkqueue_append_buffer(&r->write_queue, b); buffer_free(b);
+        r->resp_body_finished = 1;
+    } else if (t[0] == '/' && t[1] == 'v') {
+        /* response field whose value has a chosen length and alphabet: /v<len>.<char code> */
+        size_t n = strtoul(t + 2, NULL, 10); const char *dot = strchr(t, '.'); int ch = dot ? atoi(dot + 1) : 'a';
+        char *v = malloc(n + 1); memset(v, ch, n); v[n] = 0;
+        if (n) http_header_response_set(r, HTTP_HEADER_OTHER, CONST_STR_LEN("x-v"), v, (uint32_t)n);
+        free(v); r->resp_body_finished = 1;
+    } else if (t[0] == '/' && t[1] == 'r') {
+        int k = atoi(t + 2);
+        switch (k) {
+          case 0: http_header_response_set(r, HTTP_HEADER_CONTENT_TYPE, CONST_STR_LEN("Content-Type"), CONST_STR_LEN("text/plain")); break;
+          case 1: http_header_response_set(r, HTTP_HEADER_OTHER, CONST_STR_LEN("X-Mixed-CASE"), CONST_STR_LEN("Value With UPPER"));
+                  http_header_response_set(r, HTTP_HEADER_ETAG, CONST_STR_LEN("ETag"), CONST_STR_LEN("\"abc\"")); break;
+          case 2: http_header_response_insert(r, HTTP_HEADER_SET_COOKIE, CONST_STR_LEN("Set-Cookie"), CONST_STR_LEN("a=1"));
+                  http_header_response_insert(r, HTTP_HEADER_SET_COOKIE, CONST_STR_LEN("Set-Cookie"), CONST_STR_LEN("b=2; Path=/"));
+                  http_header_response_insert(r, HTTP_HEADER_SET_COOKIE, CONST_STR_LEN("Set-Cookie"), CONST_STR_LEN("c=3")); break;
+          case 3: http_header_response_set(r, HTTP_HEADER_LOCATION, CONST_STR_LEN("Location"), CONST_STR_LEN("http://h.example/elsewhere?x=%20y"));
+                  r->http_status = 302; break;
+          case 4: { char big[20001]; memset(big, 'Z', 20000); big[20000] = 0;   /* header block larger than one frame: CONTINUATION */
+                  http_header_response_set(r, HTTP_HEADER_OTHER, CONST_STR_LEN("x-big"), big, 20000);
+                  http_header_response_set(r, HTTP_HEADER_OTHER, CONST_STR_LEN("x-after"), CONST_STR_LEN("tail")); break; }
+          case 5: http_header_response_set(r, HTTP_HEADER_CACHE_CONTROL, CONST_STR_LEN("Cache-Control"), CONST_STR_LEN("max-age=3600"));
+                  http_header_response_set(r, HTTP_HEADER_VARY, CONST_STR_LEN("Vary"), CONST_STR_LEN("Accept-Encoding"));
+                  http_header_response_set(r, HTTP_HEADER_OTHER, CONST_STR_LEN("x-bin"), CONST_STR_LEN("\x01\x7f\xff\x80 ~")); break;
+          case 6: r->http_status = 404; break;
+          case 7: r->http_status = 206; http_header_response_set(r, HTTP_HEADER_CONTENT_RANGE, CONST_STR_LEN("Content-Range"), CONST_STR_LEN("bytes 0-0/10")); break;
+          default: r->http_status = 418; break;
+        }
+        chunkqueue_append_mem(&r->write_queue, CONST_STR_LEN("ok"));
         r->resp_body_finished = 1;
     } else if (t[0] == '/' && t[1] == 'n') {
         r->http_status = 204; r->resp_body_finished = 1;
@@ -147,7 +200,21 @@ static void print_client_frames(void) {
         cl_parsed += 9 + len;
     }
 }
+static int body_mode;
 static void print_new_frames(void) {
+    if (body_mode) {
+        while (out_len - out_parsed >= 9) {
+            const unsigned char *s = outbuf + out_parsed;
+            uint32_t len = ((uint32_t)s[0] << 16) | ((uint32_t)s[1] << 8) | s[2];
+            if (out_len - out_parsed < 9 + (size_t)len) break;
+            unsigned type = s[3], fl = s[4]; uint32_t sid = be32(s + 5) & 0x7fffffff;
+            if (type == 0 || type == 1 || type == 9) { printf(" %c%u.%x.", type == 0 ? 'D' : type == 1 ? 'H' : 'C', sid, fl); hx_put(stdout, (const char *)s + 9, len); }
+            else if (type == 3) printf(" R%u.%u", sid, be32(s + 9));
+            else if (type == 7) printf(" A%u.%u", be32(s + 9) & 0x7fffffff, be32(s + 13));
+            out_parsed += 9 + len;
+        }
+        return;
+    }
     if (trace_mode) {
         while (out_len - out_parsed >= 9) {
             const unsigned char *s = outbuf + out_parsed;
@@ -199,6 +266,7 @@ static void new_connection(void) {
 
 int main(int argc, char **argv) {
     trace_mode = (argc > 1 && 0 == strcmp(argv[1], "trace"));
+    body_mode = (argc > 1 && 0 == strcmp(argv[1], "body"));
     memset(&srv, 0, sizeof(srv));
     srv.errh = fdlog_init(NULL, -1, FDLOG_FD);
     srv.tmp_buf = buffer_init();
@@ -238,6 +306,8 @@ int main(int argc, char **argv) {
                 k += hp_field(hb + k, ":authority", "h.example", 9);
                 if (na > 5) { size_t n; char *x = hx_dec(a[5], &n); if (x) { memcpy(hb + k, x, n); k += n; free(x); } }
                 frame(1, (unsigned)strtoul(a[2], NULL, 16), (uint32_t)strtoul(a[1], NULL, 10), hb, (uint32_t)k);
+            } else if (!strcmp(a[0], "HX")) { size_t n = 0; char *x = hx_dec(a[3], &n);
+                frame(1, (unsigned)strtoul(a[2], NULL, 16), (uint32_t)strtoul(a[1], NULL, 10), x ? x : "", (uint32_t)n); free(x);
             } else if (!strcmp(a[0], "X")) { size_t n; char *x = hx_dec(a[1], &n); if (x) { send_bytes(x, n); free(x); }
             } else if (!strcmp(a[0], "W")) { uint32_t v = (uint32_t)strtoul(a[2], NULL, 10); unsigned char pl[4] = { (unsigned char)(v >> 24), (unsigned char)(v >> 16), (unsigned char)(v >> 8), (unsigned char)v };
                 frame(8, 0, (uint32_t)strtoul(a[1], NULL, 10), pl, 4);
